@@ -593,6 +593,7 @@ pub struct MonState {
     /// calibration of the abstract walk's effect table against the real VM
     pub calib_prev: Option<(usize, Option<Abs5>, Abs5, Option<i32>)>,
     pub calib_checked: u64,
+    pub calib_jump: Option<(usize, usize, Abs5, Option<i32>)>,
     // C06
     pub c06: Vec<String>,
     pub c06_slots_checked: u64,
@@ -708,6 +709,27 @@ impl MonState {
                     Self::push_v(&mut self.c15, s);
                 }
             }
+        }
+        // plain jumps move control and nothing else
+        if let Some((jaddr, jt, before, perr)) = self.calib_jump.take() {
+            if (address == jt || address == jaddr + 1) && perr == es.last_error_code {
+                self.calib_checked += 1;
+                if before != now5 {
+                    let s = format!(
+                        "effect table: the jump at {} changed the stack depths {:?} -> {:?}",
+                        self.pos_str(jaddr),
+                        before,
+                        now5
+                    );
+                    Self::push_v(&mut self.c15, s);
+                }
+            }
+        }
+        match ins {
+            Instruction::Jump(AddressOrLabel::Resolved(t)) | Instruction::JumpIfFalse(AddressOrLabel::Resolved(t)) => {
+                self.calib_jump = Some((address, *t, now5, es.last_error_code));
+            }
+            _ => {}
         }
         self.calib_prev = Some((address, effect(ins), now5, es.last_error_code));
         let v = vec6(d);
